@@ -5,7 +5,9 @@ Inductive case :=
 | CBitsToInt (bits : list Z) (obs : res Z)
 | CIntToBits (num : N) (d : nat) (obs : res (list Z))
 | CBinaryRule (cls : bool) (nb : list Z) (rule : rule_form) (sch : scheme) (pows : option (list Z)) (obs : res Z)
-| CNks (cls : bool) (nb : list Z) (R : N) (obs : res Z).
+| CNks (cls : bool) (nb : list Z) (R : N) (obs : res Z)
+(* one class object (NKSRule if nksclass, else BinaryRule) called on several neighbourhoods *)
+| CClassReuse (nksclass : bool) (R : N) (sch : scheme) (pows : option (list Z)) (nbs : list (list Z)) (obs : res (list Z)).
 
 (* model output, uniformly as a list so that a replay can print it *)
 Definition model_out (c : case) : res (list Z) :=
@@ -15,12 +17,16 @@ Definition model_out (c : case) : res (list Z) :=
   | CBinaryRule cls nb rule sch pows _ =>
       bind (if cls then BinaryRule_call rule sch pows nb 0%Z 1 else binary_rule nb rule sch pows) (fun z => Ok [z])
   | CNks cls nb R _ => bind (if cls then NKSRule_call R nb 0%Z 1 else nks_rule nb R) (fun z => Ok [z])
+  | CClassReuse nksclass R sch pows nbs _ =>
+      fold_right (fun nb acc => bind (if nksclass then NKSRule_call R nb 0%Z 1 else BinaryRule_call (RInt R) sch pows nb 0%Z 1)
+                                     (fun z => bind acc (fun l => Ok (z :: l)))) (Ok []) nbs
   end.
 
 Definition observed (c : case) : res (list Z) :=
   match c with
   | CBitsToInt _ o | CBinaryRule _ _ _ _ _ o | CNks _ _ _ o => bind o (fun z => Ok [z])
   | CIntToBits _ _ o => o
+  | CClassReuse _ _ _ _ _ o => o
   end.
 
 (* error classes are not part of C07: any exception on both sides agrees *)
